@@ -896,6 +896,12 @@ class Norm:
         return self.mk_attr(base, node.attr, scope)
 
     def mk_attr(self, base: Term, attr: str, scope: Optional[Scope]) -> Term:
+        if attr == "size" and base[0] == "call" and base[1] == ("g", "ext:struct.Struct") and len(base[2]) == 1 and base[2][0][0] == "c":
+            import struct as _struct
+            try:
+                return C(_struct.calcsize(base[2][0][1]))
+            except Exception:
+                pass
         if base[0] == "g":
             ref = base[1]
             if ref.startswith("mod:"):
@@ -1362,8 +1368,17 @@ class Norm:
             if attr in ci.methods:
                 break
             if attr in ci.class_attrs:
+                node = ci.class_attrs[attr]
+                if isinstance(node, ast.Call) and (dotted_name(node.func) or "").split(".")[-1] == "Struct" and len(node.args) == 1 and not node.keywords:
+                    try:
+                        fmt = self.repo.fold(node.args[0], ci.module, None, {})
+                    except Exception:
+                        break
+                    if isinstance(fmt, (bytes, str)):
+                        out = ("call", ("g", "ext:struct.Struct"), (C(fmt),), ())
+                    break
                 try:
-                    v = self.repo.fold(ci.class_attrs[attr], ci.module, None, {})
+                    v = self.repo.fold(node, ci.module, None, {})
                 except Exception:
                     break
                 if isinstance(v, (int, bytes, str, bool)) or v is None:
